@@ -26,7 +26,8 @@ engine.use_repo()
 
 PID = "S_DISTRIBUTED"
 CHUNK = 2
-THEOREM_MODULES = ["C04_Distributed", "C05_Distributed", "C06_Distributed", "C14_Distributed"]
+THEOREM_MODULES = ["C04_Distributed", "C05_Distributed", "C05_DistributedConn", "C06_Distributed", "C14_Distributed",
+                   "C14_DistributedRun", "C14_DistributedNcs", "C09_DistributedRun"]
 RULE = ("scenarios from the grammar in harness/scen.py for strategy distributed (1-3 connectors of either station type, "
         "fixed load, generation, up to two stationary batteries per connector, V2G, signals, CONCURRENCY, minimum powers, "
         "number_cs) x sub-strategy options (strategy_opps/deps in greedy/balanced, option overrides); every constructor "
